@@ -2,8 +2,10 @@ package c02
 
 import (
 	"fmt"
+	"io"
 	"runtime"
 	"runtime/debug"
+	"sort"
 	"strings"
 	"sync"
 	"time"
@@ -62,6 +64,88 @@ func (r *runner) hammer(a int, stop <-chan struct{}, wg *sync.WaitGroup) {
 		}
 		time.Sleep(250 * time.Microsecond)
 	}
+}
+
+// watchShutdownDelay polls the given addresses while a load (or the final stop) is in progress
+// and notes which generations answer with {http.shutting_down} true: the HTTP app's Stop found
+// a listener of theirs with ListenerUsage < 2 and enforces shutdown_delay.
+func (r *runner) watchShutdownDelay(load int, addrs []int, stop <-chan struct{}, done chan<- struct{}) {
+	defer close(done)
+	for {
+		for _, a := range addrs {
+			select {
+			case <-stop:
+				return
+			default:
+			}
+			c, err := r.env.dial(a, 200*time.Millisecond)
+			if err != nil {
+				continue
+			}
+			c.SetDeadline(time.Now().Add(300 * time.Millisecond))
+			_, _ = io.WriteString(c, "GET /id HTTP/1.0\r\nHost: verif\r\n\r\n")
+			b, _ := io.ReadAll(c)
+			c.Close()
+			body := string(b)
+			if i := strings.Index(body, "gen="); i >= 0 && strings.Contains(body[i:], " sd=1") {
+				var g int
+				if _, err := fmt.Sscanf(body[i:], "gen=%d", &g); err == nil {
+					r.sdMu.Lock()
+					if r.sdSeen[load] == nil {
+						r.sdSeen[load] = map[int]bool{}
+					}
+					r.sdSeen[load][g] = true
+					r.sdMu.Unlock()
+				}
+			}
+		}
+		time.Sleep(2 * time.Millisecond)
+	}
+}
+
+// startWatch: no-op unless a shutdown_delay is configured.
+func (r *runner) startWatch(load int, cfgs ...int) func() {
+	if r.sc.delay == 0 {
+		return func() {}
+	}
+	set := map[int]bool{}
+	for _, k := range cfgs {
+		if k >= 0 && k < len(r.sc.cfgs) {
+			for _, a := range r.sc.cfgs[k].addrs() {
+				set[a] = true
+			}
+		}
+	}
+	var addrs []int
+	for _, a := range httpAddrs {
+		if set[a] {
+			addrs = append(addrs, a)
+		}
+	}
+	if len(addrs) == 0 {
+		return func() {}
+	}
+	stop, done := make(chan struct{}), make(chan struct{})
+	go r.watchShutdownDelay(load, addrs, stop, done)
+	return func() { close(stop); <-done }
+}
+
+func (r *runner) sdField(load int) string {
+	r.sdMu.Lock()
+	defer r.sdMu.Unlock()
+	var gs []int
+	for g := range r.sdSeen[load] {
+		gs = append(gs, g)
+	}
+	sort.Ints(gs)
+	out := ""
+	for _, g := range gs {
+		out += genChar(g)
+	}
+	if out == "" {
+		return "-"
+	}
+	return out
 }
 
 func (r *runner) markAdmin(k, admin int) {
@@ -130,7 +214,7 @@ func (r *runner) waitDrained(gen int) {
 }
 
 func newRunner(e *env, sc scenario) *runner {
-	r := &runner{env: e, sc: sc, opened: map[int]int{}, closed: map[int]int{}, firstP: map[int]bool{}, injected: map[int]bool{}, tokens: map[string]*token{}, curGen: -1}
+	r := &runner{env: e, sc: sc, opened: map[int]int{}, closed: map[int]int{}, firstP: map[int]bool{}, injected: map[int]bool{}, tokens: map[string]*token{}, curGen: -1, sdSeen: map[int]map[int]bool{}}
 	for i, ts := range sc.toks {
 		id := fmt.Sprintf("k%d", i)
 		r.tokens[id] = &token{id: id, spec: ts, accepted: make(chan int, 1), release: make(chan struct{}), done: make(chan [2]string, 1), acceptor: -1}
@@ -238,7 +322,9 @@ func (r *runner) execute() {
 		r.hi.Store(int64(k))
 		r.record('L', k, "", true)
 		r.markAdmin(k, c.admin)
+		stopWatch := r.startWatch(k, r.curGen, k)
 		err := caddy.Load(js, true)
+		stopWatch()
 		res := "ok"
 		switch {
 		case err != nil && c.fail && r.injected[k]:
@@ -326,7 +412,9 @@ func (r *runner) execute() {
 	r.startTokens(n)
 	r.record('L', n, "", true)
 	r.openWindow()
+	stopWatch := r.startWatch(n, r.curGen)
 	_ = caddy.Stop()
+	stopWatch()
 	r.results = append(r.results, "ok")
 	r.record('R', n, "ok", true)
 	r.releaseAt('r')
